@@ -101,7 +101,12 @@ RouteClause == IF C.route = <<>> THEN "ok"
                ELSE IF \E t \in 1..Len(St) : t < FirstTie /\ (t > Len(C.route) \/ C.route[t] # St[t].c) THEN "route-selects-differently" ELSE "ok"
 All == [t \in 1..Len(St) |-> StepClause(t)]
 Hard == {t \in 1..Len(St) : All[t] \notin {"ok", "inconclusive", "badwitness"}}
+\* the orthogonaliser treats a column whose norm is below its tolerance as zero (documented): a selected residual column
+\* within a factor four of that threshold (C.tolu = tolerance in the units of A, fixed point) makes the deflation undecided
+ColNorm2(M, j) == FSumR([i \in 1..Len(M) |-> FMul(M[i][j], M[i][j])], Len(M))
+TolDoubt == C.tolu > 0 /\ \E t \in 1..Len(St) : St[t].c \in 1..NI /\ ColNorm2(St[t].R, St[t].c) < FMul(4 * C.tolu, 4 * C.tolu)
 Verdict == IF C.raised THEN <<"rejected", "valid-fit-raised">>
+           ELSE IF TolDoubt THEN <<"inconclusive", "selected-column-within-the-zero-tolerance">>
            ELSE IF Hard # {} THEN <<"rejected", All[SetMin(Hard)], SetMin(Hard)>>
            ELSE IF \E t \in 1..Len(St) : All[t] = "badwitness" THEN <<"badwitness", "eigenbasis">>
            ELSE IF FinalClause # "ok" THEN <<"rejected", FinalClause>>
